@@ -352,6 +352,15 @@ def run(ck):
     mods = sorted(set(m for m, _ in thms))
     ck.coq_build(["props/%s.vo" % m.split(".")[1] for m in mods])
     ck.print_assumptions(mods, ["%s.%s" % t for t in thms])
+    # the translation ties carry no-panic content about the CURRENT source: every translated `v[i]`, `unwrap()`, slice and
+    # checked arithmetic is an explicit panic arm of the generated function, and the equality with the (panic-free) hand model
+    # shows the arm dead for all inputs (Src_strings_*: `defined`, Src_onerror_*: `Some`, Src_cli_dispatch: `Some`,
+    # Src_condslice_total, Src_eval_instructions_step_no_panic, Src_parser_* over the index-faithful parser ...)
+    for tie in ("parser", "expand", "registry", "cond", "condslice", "runner", "eval", "alias", "onerror", "strings", "cli"):
+        try:
+            ck.source_tie(tie)
+        except KeyError:
+            pass
     ck.hygiene()
     ck.harness_build(["c07"])
     thorough = ck.tier == "thorough"
